@@ -59,6 +59,8 @@ Definition W_string_sets : list (string * (list string * list string)) := [
   ("is_foreign_annotation_xml_is_whatwg", sw is_foreign_annotation_xml_start_html whatwg_annotation_xml_start_html [] []);
   ("annotation_xml_integration_point_is_whatwg", sw annotation_xml_encodings whatwg_annotation_xml_encodings [] []);
   ("ser_void_elements_is_whatwg", sw ser_void_elements whatwg_serializes_as_void [] []);
+  ("ser_void_elements_is_whatwg_void_plus_obsolete", sw ser_void_elements whatwg_void_elements whatwg_serializes_as_void_only []);
+  ("legacy_select_modes_absent", (filter (fun m => smem m insertion_modes) legacy_insertion_modes_extra, []));
   ("ser_rawtext_parents_is_whatwg", sw ser_rawtext_parents whatwg_ser_rawtext_parents [] []);
   ("ser_rawtext_parents_if_scripting_is_whatwg", sw ser_rawtext_parents_if_scripting whatwg_ser_rawtext_parents_if_scripting [] []);
   ("insertion_modes_is_whatwg", sw insertion_modes whatwg_insertion_modes [] []);
